@@ -4,9 +4,9 @@ CONSTANTS
  Q = 5
  Gg = 3
  Vars = {"n"}
- Ns = {2, 3}
- MsgVecs <- MV11
- CCoins <- AllZq
+ Ns = {3}
+ MsgVecs <- MV11s
+ CCoins <- C4d
  SCoins <- C2a
  Tamper = FALSE
  PowM <- TabPowM
